@@ -1,13 +1,648 @@
-"""Verus engine (filled in below): extract real functions from /repo, splice contracts, run verus."""
+"""Verus engine: cut real items out of /repo's working tree on every run, splice contracts, run `verus file.rs`.
+
+Unit description: contracts/verus/<unit>.vspec (see parse_vspec). The generated file is
+    use vstd..; verus! { <@prelude text> <extracted items with spliced contracts> <@epilogue text> } fn main(){}
+What extraction drops / rewrites is the closed list REWRITES below (DESIGN 3.2); counts go into the evidence.
+`proof fn canary_*` items must FAIL (vacuity guards); every other function must verify.
+"""
+import json
+import os
+import re
+import subprocess
+import time
+
+from common import VERIF, REPO, log
+
+VDIR = os.path.join(VERIF, "contracts", "verus")
 
 
 class Undecided(Exception):
     pass
 
 
+# ---------------------------------------------------------------------------------------------- rewrites (closed list)
+REWRITES = [
+    # id, regex, replacement, what is lost
+    ("R1", re.compile(r"u32::from_be_bytes\(\s*((?:[^()]|\((?:[^()]|\([^()]*\))*\))*?)\s*\.try_into\(\)\s*\.unwrap\(\),?\s*\)", re.S),
+     r"be32_from(\1)", "u32::from_be_bytes(E.try_into().unwrap()) -> be32_from(E) requiring E.len()==4 (the unwrap panics iff len!=4: kept as obligation)"),
+    ("R1b", re.compile(r"u64::from_be_bytes\(\s*((?:[^()]|\((?:[^()]|\([^()]*\))*\))*?)\s*\.try_into\(\)\s*\.unwrap\(\),?\s*\)", re.S),
+     r"be64_from(\1)", "u64::from_be_bytes(E.try_into().unwrap()) -> be64_from(E) requiring E.len()==8"),
+    ("R2", re.compile(r"((?:[A-Za-z_][A-Za-z0-9_]*|\((?:[^()]|\([^()]*\))*\))(?:\.[A-Za-z_][A-Za-z0-9_]*(?:\(\))?)*)\.to_be_bytes\(\)"),
+     r"to_be_bytes_spec(\1)", "E.to_be_bytes() -> to_be_bytes_spec(E) (u32/u16 via trait)"),
+    ("R0-attr", re.compile(r"^[ \t]*#\[(?:default|inline|allow\([^\]]*\)|cfg\(any\(test, feature = \"hbs_lms_verif\"\)\)|cfg\(test\))\][ \t]*\n(?:[ \t]*[^\n]*LmsH2[^\n]*\n)?", re.M), "",
+     "inert attributes (#[default], #[inline], #[allow]) dropped; cfg(test)/hook-only LmsH2 lines dropped (default build)"),
+    ("R7", re.compile(r"panic!\((?:[^()]|\([^()]*\))*\)"), "vpanic()", "panic!(..) -> vpanic() whose precondition is false: reaching it is a failed obligation"),
+    ("R9-flatten", re.compile(r"\b(?:crate::)?(?:(?:lm_ots|lms|hss|util|constants|hasher|signing|verify|definitions|parameters|parameter|keygen|helper|coef|aux|reference_impl_private_key|seed_derive|super)::)+(?=[A-Za-z_])"), "",
+     "crate-internal module paths flattened (single-file Verus): lm_ots::signing::X -> X"),
+    ("R5", re.compile(r"H::OUTPUT_SIZE\.into\(\)"), r"(H::OUTPUT_SIZE as usize)", "H::OUTPUT_SIZE.into() -> H::OUTPUT_SIZE as usize (lossless widening)"),
+]
+
+
+class Unit:
+    def __init__(self, name):
+        self.name = name
+        self.props = []
+        self.tier = "quick"
+        self.prelude = ""
+        self.epilogue = ""
+        self.items = []       # dicts
+        self.uses = []
+        self.path = None
+        self.imports = []
+        self.expect_fail = []  # names of functions expected to fail in addition to canary_*
+        self.rlimit = None
+
+
+def parse_vspec(path):
+    u = Unit(os.path.basename(path)[:-6])
+    u.path = path
+    cur = None          # current item
+    mode = None         # prelude | epilogue | sig | before | loop | body_replace
+    buf = []
+    target = None
+
+    def flush():
+        nonlocal buf, mode, target
+        text = "\n".join(buf)
+        if mode == "prelude":
+            u.prelude += text + "\n"
+        elif mode == "epilogue":
+            u.epilogue += text + "\n"
+        elif mode == "sig" and cur is not None:
+            cur["sig"] = text
+        elif mode == "before" and cur is not None:
+            cur["before"].append((target, text))
+        elif mode == "after" and cur is not None:
+            cur["after"].append((target, text))
+        elif mode == "loop" and cur is not None:
+            cur["loops"].append((int(target), text))
+        buf = []
+        mode = None
+        target = None
+
+    with open(path) as f:
+        for raw in f:
+            line = raw.rstrip("\n")
+            if line.startswith("@"):
+                parts = line.split(None, 1)
+                key = parts[0]
+                arg = parts[1] if len(parts) > 1 else ""
+                if key == "@@":
+                    buf.append(line[2:])
+                    continue
+                flush()
+                if key == "@props":
+                    u.props = [p.strip() for p in arg.split(",")]
+                elif key == "@tier":
+                    u.tier = arg.strip()
+                elif key == "@rlimit":
+                    u.rlimit = arg.strip()
+                elif key == "@use":
+                    u.uses.append(arg.strip())
+                elif key == "@expect_fail":
+                    u.expect_fail.append(arg.strip())
+                elif key == "@include":
+                    with open(os.path.join(VDIR, arg.strip())) as inc:
+                        u.prelude += inc.read() + "\n"
+                elif key == "@import":
+                    # modular use of another unit: its prelude and items are included, its fns as external_body
+                    # (contract assumed here, proved in that unit, which runs for the same properties)
+                    other = parse_vspec(os.path.join(VDIR, arg.strip() + ".vspec"))
+                    for x in other.uses:
+                        if x not in u.uses:
+                            u.uses.append(x)
+                    if other.prelude not in u.prelude:
+                        u.prelude += other.prelude
+                    for it in other.items:
+                        if any(j["file"] == it["file"] and j["name"] == it["name"] and j["impl"] == it["impl"] for j in u.items):
+                            continue
+                        it = dict(it)
+                        it["imported_from"] = other.name
+                        it["before"], it["after"], it["loops"] = [], [], []
+                        u.items.append(it)
+                    u.imports.append(other.name)
+                elif key == "@genconst":
+                    u.prelude += gen_const(arg.strip()) + "\n"
+                elif key == "@prelude":
+                    mode = "prelude"
+                elif key == "@epilogue":
+                    mode = "epilogue"
+                elif key == "@item":
+                    # @item <file> <kind> <name> [in <impl header>] [as <tag>]
+                    m = re.match(r"(\S+)\s+(fn|struct|const|enum|type|implconst)\s+(\S+)(?:\s+in\s+(.*))?$", arg)
+                    if not m:
+                        raise Undecided("bad @item line in %s: %s" % (path, line))
+                    cur = {"file": m.group(1), "kind": m.group(2), "name": m.group(3), "impl": (m.group(4) or "").strip() or None,
+                           "sig": "", "before": [], "after": [], "loops": [], "opts": {}}
+                    u.items.append(cur)
+                elif key == "@opt" and cur is not None:
+                    k, _, v = arg.partition("=")
+                    cur["opts"][k.strip()] = v.strip()
+                elif key == "@sig":
+                    mode = "sig"
+                elif key == "@start":
+                    mode = "before"
+                    target = "@@START"
+                elif key == "@before":
+                    mode = "before"
+                    target = arg
+                elif key == "@after":
+                    mode = "after"
+                    target = arg
+                elif key == "@loop":
+                    mode = "loop"
+                    target = arg.strip()
+                elif key == "@end":
+                    cur = None
+                else:
+                    raise Undecided("unknown directive %s in %s" % (key, path))
+            else:
+                if mode:
+                    buf.append(line)
+    flush()
+    return u
+
+
+_GEN_DEFAULTS = {"MAX_ALLOWED_HSS_LEVELS": ("HBS_LMS_MAX_ALLOWED_HSS_LEVELS", "8")}
+
+
+def gen_const(name):
+    """Constants that build.rs generates from the environment: value of the default configuration (.cargo/config.toml)."""
+    env, dflt = _GEN_DEFAULTS[name]
+    val = dflt
+    try:
+        with open(os.path.join(REPO, ".cargo", "config.toml")) as f:
+            m = re.search(r'^%s\s*=\s*"([^"]*)"' % env, f.read(), re.M)
+            if m:
+                val = m.group(1).strip()
+    except OSError:
+        pass
+    return "pub const %s: usize = %s; // generated constant (build.rs), default configuration" % (name, val)
+
+
 def list_units():
-    return []
+    out = []
+    if not os.path.isdir(VDIR):
+        return out
+    for fn in sorted(os.listdir(VDIR)):
+        if fn.endswith(".vspec"):
+            out.append(parse_vspec(os.path.join(VDIR, fn)))
+    return out
 
 
-def run_unit(u, scratch):
-    raise Undecided("not implemented")
+# ---------------------------------------------------------------------------------------------- rust text cutting
+def _strip_tokens(src):
+    """Return a same-length string where comments, strings and char literals are blanked (brace matching aid)."""
+    out = list(src)
+    i, n = 0, len(src)
+    while i < n:
+        c = src[i]
+        if src.startswith("//", i):
+            j = src.find("\n", i)
+            j = n if j < 0 else j
+            for k in range(i, j):
+                out[k] = " "
+            i = j
+        elif src.startswith("/*", i):
+            depth, j = 1, i + 2
+            while j < n and depth:
+                if src.startswith("/*", j):
+                    depth += 1
+                    j += 2
+                elif src.startswith("*/", j):
+                    depth -= 1
+                    j += 2
+                else:
+                    j += 1
+            for k in range(i, j):
+                if out[k] != "\n":
+                    out[k] = " "
+            i = j
+        elif c == '"':
+            j = i + 1
+            while j < n and src[j] != '"':
+                j += 2 if src[j] == "\\" else 1
+            for k in range(i + 1, min(j, n)):
+                if out[k] != "\n":
+                    out[k] = " "
+            i = j + 1
+        elif c == "'":
+            # char literal or lifetime
+            m = re.match(r"'(\\.|[^\\'])'", src[i:])
+            if m:
+                for k in range(i + 1, i + len(m.group(0)) - 1):
+                    out[k] = " "
+                i += len(m.group(0))
+            else:
+                i += 1
+        else:
+            i += 1
+    return "".join(out)
+
+
+def _match_brace(clean, open_idx):
+    depth = 0
+    for j in range(open_idx, len(clean)):
+        if clean[j] == "{":
+            depth += 1
+        elif clean[j] == "}":
+            depth -= 1
+            if depth == 0:
+                return j
+    raise Undecided("unbalanced braces")
+
+
+def _find_impl_range(src, clean, header):
+    want = re.sub(r"\s+", " ", header.strip())
+    for m in re.finditer(r"^[ \t]*impl\b[^{;]*\{", clean, re.M):
+        got = re.sub(r"\s+", " ", src[m.start():m.end() - 1].strip())
+        if got == want:
+            return m.end() - 1, _match_brace(clean, m.end() - 1)
+    raise Undecided("lost anchor: impl header %r not found" % header)
+
+
+def cut_item(file_rel, kind, name, impl=None, repo=None):
+    """Returns dict(sig, body, start_line, text) for fn; text for others."""
+    path = os.path.join(repo or REPO, file_rel)
+    if not os.path.exists(path):
+        raise Undecided("lost anchor: %s does not exist" % file_rel)
+    with open(path) as f:
+        src = f.read()
+    clean = _strip_tokens(src)
+    lo, hi = 0, len(src)
+    if impl:
+        lo, hi = _find_impl_range(src, clean, impl)
+    # exclude #[cfg(test)] mod tests
+    mt = re.search(r"#\[cfg\(test\)\]\s*(pub\s+)?mod\s+\w+\s*\{", clean)
+    if mt and mt.start() < hi and not impl:
+        hi = min(hi, mt.start())
+    if kind == "fn":
+        pat = re.compile(r"^[ \t]*(?:pub(?:\([a-z]+\))?\s+)?(?:const\s+)?fn\s+%s\b" % re.escape(name), re.M)
+        ms = [m for m in pat.finditer(clean, lo, hi)]
+        # only depth-1 matches relative to the search range when in impl; when not in impl require top-level or any (unique)
+        if len(ms) != 1:
+            raise Undecided("lost anchor: fn %s in %s%s matches %d times" % (name, file_rel, " (%s)" % impl if impl else "", len(ms)))
+        m = ms[0]
+        ob = clean.find("{", m.end())
+        semi = clean.find(";", m.end())
+        if ob < 0 or (0 <= semi < ob):
+            raise Undecided("fn %s has no body" % name)
+        cb = _match_brace(clean, ob)
+        sig = src[m.start():ob].rstrip()
+        body = src[ob:cb + 1]
+        return {"sig": sig, "body": body, "start_line": src.count("\n", 0, m.start()) + 1,
+                "body_line": src.count("\n", 0, ob) + 1, "file": file_rel}
+    if kind in ("struct", "enum"):
+        pat = re.compile(r"^[ \t]*(?:pub(?:\([a-z]+\))?\s+)?%s\s+%s\b" % (kind, re.escape(name)), re.M)
+        ms = [m for m in pat.finditer(clean, lo, hi)]
+        if len(ms) != 1:
+            raise Undecided("lost anchor: %s %s in %s matches %d times" % (kind, name, file_rel, len(ms)))
+        m = ms[0]
+        ob = clean.find("{", m.end())
+        semi = clean.find(";", m.end())
+        if 0 <= semi and (ob < 0 or semi < ob):
+            end = semi
+        else:
+            end = _match_brace(clean, ob)
+        return {"text": src[m.start():end + 1], "start_line": src.count("\n", 0, m.start()) + 1, "file": file_rel}
+    if kind in ("const", "type", "implconst"):
+        kw = "const" if kind != "type" else "type"
+        pat = re.compile(r"^[ \t]*(?:pub(?:\([a-z]+\))?\s+)?%s\s+%s\b" % (kw, re.escape(name)), re.M)
+        ms = [m for m in pat.finditer(clean, lo, hi)]
+        if len(ms) != 1:
+            raise Undecided("lost anchor: %s %s in %s matches %d times" % (kw, name, file_rel, len(ms)))
+        m = ms[0]
+        depth, end = 0, -1
+        for j in range(m.end(), len(clean)):
+            ch = clean[j]
+            if ch in "([{":
+                depth += 1
+            elif ch in ")]}":
+                depth -= 1
+            elif ch == ";" and depth == 0:
+                end = j
+                break
+        return {"text": src[m.start():end + 1], "start_line": src.count("\n", 0, m.start()) + 1, "file": file_rel}
+    raise Undecided("unknown item kind %s" % kind)
+
+
+_LOOP_RE = re.compile(r"\b(while|for|loop)\b")
+
+
+def _loop_headers(body_clean):
+    """Positions (start_of_keyword, index_of_open_brace) of loops in a body, in textual order."""
+    res = []
+    for m in _LOOP_RE.finditer(body_clean):
+        # 'for' in 'for<'a>' HRTB is not expected in these bodies
+        ob = body_clean.find("{", m.end())
+        if ob < 0:
+            continue
+        res.append((m.start(), ob))
+    return res
+
+
+def rewrite_arrayvec(text, counts):
+    """R3: `ArrayVec<[T; N]>` -> `ArrayVec<T, { N }>` (tinyvec stand-in of the prelude, capacity as const generic)."""
+    out = []
+    i = 0
+    while True:
+        j = text.find("ArrayVec<[", i)
+        if j < 0:
+            out.append(text[i:])
+            break
+        out.append(text[i:j])
+        k = j + len("ArrayVec<[")
+        depth = 1
+        semi = -1
+        while k < len(text) and depth:
+            ch = text[k]
+            if ch in "[(<":
+                depth += 1
+            elif ch in "])>":
+                if ch == ">" and text[k - 1] == "-":
+                    pass
+                else:
+                    depth -= 1
+            elif ch == ";" and depth == 1:
+                semi = k
+            k += 1
+        # k is just past the matching ']'
+        inner_t = text[j + len("ArrayVec<["):semi].strip()
+        inner_n = text[semi + 1:k - 1].strip()
+        inner_t = rewrite_arrayvec(inner_t, counts)
+        out.append("ArrayVec<%s, { %s }" % (inner_t, inner_n))
+        counts["R3"] = counts.get("R3", 0) + 1
+        i = k  # the closing '>' of ArrayVec<...> follows in the source text
+    return "".join(out)
+
+
+def apply_rewrites(text, counts):
+    text = rewrite_arrayvec(text, counts)
+    text, n = re.subn(r"\bfor _ in\b", "for _i in", text)
+    if n:
+        counts["R8-for-underscore"] = counts.get("R8-for-underscore", 0) + n
+    for rid, rx, rep, _what in REWRITES:
+        text, n = rx.subn(rep, text)
+        if n:
+            counts[rid] = counts.get(rid, 0) + n
+    return text
+
+
+def render_fn(item, cut, counts):
+    sig = cut["sig"]
+    body = cut["body"]
+    # R0: result naming  `-> T` => `-> (r: T)` so that ensures can talk about the result
+    opts = item["opts"]
+    rname = opts.get("ret", "r")
+    m = re.search(r"\)\s*->\s*(.+)$", sig, re.S)
+    if m and not re.match(r"\(\s*[A-Za-z_][A-Za-z0-9_]*\s*:", m.group(1).lstrip()):
+        rt = m.group(1).strip()
+        where = ""
+        mw = re.search(r"\bwhere\b", rt)
+        if mw:
+            where = " " + rt[mw.start():]
+            rt = rt[:mw.start()].strip()
+        sig = sig[:m.start()] + ") -> (%s: %s)%s" % (rname, rt, where)
+        counts["R0-name-result"] = counts.get("R0-name-result", 0) + 1
+    if "sigsub" in opts:
+        # @opt sigsub=/regex/replacement/   (declared, counted rewrite of the signature, e.g. pub(crate) -> pub)
+        _, rx, rep, _ = opts["sigsub"].split("/", 3)
+        sig, n = re.subn(rx, rep, sig)
+        counts["sigsub"] = counts.get("sigsub", 0) + n
+    # loops first (positions refer to the unmodified body)
+    body_clean = _strip_tokens(body)
+    inserts = []  # (pos, text)
+    heads = _loop_headers(body_clean)
+    for k, text in item["loops"]:
+        if k >= len(heads):
+            raise Undecided("lost anchor: loop %d of fn %s (body has %d loops)" % (k, item["name"], len(heads)))
+        inserts.append((heads[k][1], "\n" + text + "\n"))
+    for anchor, text in item["before"]:
+        if anchor == "@@START":
+            inserts.append((1, "\n/*@hint-begin*/\n" + text + "\n/*@hint-end*/\n"))
+            continue
+        idxs = [mm.start() for mm in re.finditer(re.escape(anchor), body)]
+        if len(idxs) != 1:
+            raise Undecided("lost anchor: %r occurs %d times in fn %s" % (anchor, len(idxs), item["name"]))
+        ls = body.rfind("\n", 0, idxs[0]) + 1
+        inserts.append((ls, "/*@hint-begin*/\n" + text + "\n/*@hint-end*/\n"))
+    for anchor, text in item["after"]:
+        idxs = [mm.start() for mm in re.finditer(re.escape(anchor), body)]
+        if len(idxs) != 1:
+            raise Undecided("lost anchor: %r occurs %d times in fn %s" % (anchor, len(idxs), item["name"]))
+        le = body.find("\n", idxs[0])
+        inserts.append((le + 1, "/*@hint-begin*/\n" + text + "\n/*@hint-end*/\n"))
+    for pos, text in sorted(inserts, key=lambda x: -x[0]):
+        body = body[:pos] + text + body[pos:]
+    body = apply_rewrites(body, counts)
+    sig = apply_rewrites(sig, counts)
+    spliced = sig + "\n" + (item["sig"] + "\n" if item["sig"].strip() else "") + body
+    return spliced
+
+
+def generate(u, repo=None):
+    counts = {}
+    chunks = []       # (text, meta)
+    extraction = []
+    open_impl = None
+    for it in u.items:
+        cut = cut_item(it["file"], it["kind"], it["name"], it["impl"], repo)
+        if it["kind"] == "fn":
+            text = render_fn(it, cut, counts)
+            if it.get("imported_from"):
+                text = "#[verifier::external_body] // contract proved in unit %s\n" % it["imported_from"] + text
+        else:
+            text = cut["text"]
+            # R0: drop derives/attrs is implicit (we cut from the keyword); pub(crate) kept
+            text = apply_rewrites(text, counts)
+            if it["kind"] == "struct":
+                # R0-vis: all fields pub (visibility only; lets contracts of pub fns mention them)
+                text, n = re.subn(r"^(\s+)([a-z_][a-z0-9_]*\s*:)", r"\1pub \2", text, flags=re.M)
+                counts["R0-vis"] = counts.get("R0-vis", 0) + n
+            if it["opts"].get("sub"):
+                _, rx, rep, _ = it["opts"]["sub"].split("/", 3)
+                text, n = re.subn(rx, rep, text)
+                counts["itemsub"] = counts.get("itemsub", 0) + n
+        if it["impl"] != open_impl:
+            if open_impl is not None:
+                chunks.append(("}\n", None))
+            if it["impl"] is not None:
+                chunks.append((it["impl"] + " {\n", None))
+            open_impl = it["impl"]
+        chunks.append((text + "\n\n", {"item": it["name"], "kind": it["kind"], "file": it["file"], "src_line": cut["start_line"]}))
+        extraction.append({"item": ("%s::" % it["impl"] if it["impl"] else "") + it["name"], "kind": it["kind"],
+                           "from": "%s:%d" % (it["file"], cut["start_line"]), "lines": text.count("\n") + 1})
+    if open_impl is not None:
+        chunks.append(("}\n", None))
+    head = "#![allow(unused_imports, unused_variables, dead_code, unused_mut, unused_parens, non_snake_case)]\nuse vstd::prelude::*;\n"
+    for x in u.uses:
+        head += "use %s;\n" % x
+    head += "verus! {\n"
+    text = head + u.prelude + "\n"
+    linemap = []  # (gen_start, gen_end, meta)
+    for t, meta in chunks:
+        start = text.count("\n") + 1
+        text += t
+        end = text.count("\n")
+        if meta:
+            linemap.append((start, end, meta))
+    text += u.epilogue + "\n} // verus!\nfn main() {}\n"
+    return text, linemap, counts, extraction
+
+
+_FN_DECL = re.compile(r"^\s*(?:pub(?:\([a-z]+\))?\s+)?(?:open\s+|closed\s+|uninterp\s+)?(?:broadcast\s+)?(?:const\s+)?(?:proof\s+|spec\s+|exec\s+)?fn\s+([A-Za-z0-9_]+)")
+
+
+def fn_ranges(text):
+    """(start_line, end_line, name) for every fn with a body in the generated text (approximate, brace matched)."""
+    clean = _strip_tokens(text)
+    res = []
+    for m in re.finditer(r"^[ \t]*(?:pub(?:\([a-z]+\))?[ \t]+)?(?:(?:open|closed|uninterp|broadcast|const|proof|spec|exec)[ \t]+)*fn[ \t]+([A-Za-z0-9_]+)", clean, re.M):
+        ob = clean.find("{", m.end())
+        semi = clean.find(";", m.end())
+        if ob < 0 or (0 <= semi < ob):
+            continue
+        # skip braces that belong to requires/ensures clauses is not needed: clauses have no braces except closures/set literals (rare)
+        try:
+            cb = _match_brace(clean, ob)
+        except Undecided:
+            continue
+        res.append((clean.count("\n", 0, m.start()) + 1, clean.count("\n", 0, cb) + 1, m.group(1)))
+    return res
+
+
+HINT_KINDS = ("assertion failed", "bitvector assertion not satisfied", "invariant not satisfied at end of loop body",
+              "Resource limit", "rlimit", "assertion not satisfied", "requires not satisfied", "decreases not satisfied")
+CONTRACT_KINDS = ("postcondition not satisfied", "precondition not satisfied", "possible arithmetic underflow/overflow",
+                  "possible division by zero", "index out of bounds", "invariant not satisfied before loop",
+                  "possible bit shift underflow/overflow", "recommendation not met", "slice", "unwrap", "panic", "unreachable",
+                  "possible underflow", "possible overflow", "expect")
+
+
+def run_unit(u, scratch, repo=None):
+    t0 = time.time()
+    text, linemap, counts, extraction = generate(u, repo)
+    gen = os.path.join(scratch, u.name + ".rs")
+    with open(gen, "w") as f:
+        f.write(text)
+    keep = os.path.join(VERIF, "generated")
+    os.makedirs(keep, exist_ok=True)
+    with open(os.path.join(keep, u.name + ".rs"), "w") as f:
+        f.write(text)
+    cmd = ["verus", gen, "--output-json", "--time-expanded", "--multiple-errors", "30"]
+    if u.rlimit:
+        cmd += ["--rlimit", u.rlimit]
+    try:
+        p = subprocess.run(cmd, cwd=scratch, capture_output=True, text=True, timeout=1800)
+    except subprocess.TimeoutExpired:
+        raise Undecided("verus timed out on unit %s" % u.name)
+    wall = round(time.time() - t0, 2)
+    try:
+        data = json.loads(p.stdout[p.stdout.index("{"):])
+    except Exception:
+        raise Undecided("verus produced no JSON for %s: %s" % (u.name, (p.stderr or p.stdout)[-1500:]))
+    vr = data.get("verification-results", {})
+    stderr = p.stderr
+    if vr.get("encountered-vir-error") or (vr.get("encountered-error") and vr.get("verified", 0) == 0 and vr.get("errors", 0) == 0):
+        # rustc / VIR level error: unsupported construct or the code changed shape => undecided, never an alarm
+        first = re.search(r"^error[^\n]*\n(?:[^\n]*\n){0,6}", stderr, re.M)
+        raise Undecided("verus front-end error in unit %s (unsupported construct or changed shape): %s" % (
+            u.name, (first.group(0) if first else stderr[-800:]).strip()[:900]))
+    mrust = re.search(r"^error\[E\d+\]: [^\n]*\n(?:[^\n]*\n){0,5}", stderr, re.M)
+    if mrust:
+        raise Undecided("rustc error in generated unit %s (unsupported construct or changed shape): %s" % (u.name, mrust.group(0).strip()[:700]))
+    # per-function results
+    funcs = []
+    solver_ms = 0
+    for mod in data.get("times-ms", {}).get("smt", {}).get("smt-run-module-times", []):
+        for fb in mod.get("function-breakdown", []):
+            funcs.append({"function": fb["function"].split("::", 1)[-1], "mode": fb.get("mode:", fb.get("mode")),
+                          "ms": fb.get("time"), "rlimit": fb.get("rlimit"), "success": fb.get("success")})
+            solver_ms += fb.get("time", 0)
+    ranges = fn_ranges(text)
+
+    def enclosing(line):
+        best = None
+        for s, e, n in ranges:
+            if s <= line <= e and (best is None or s >= best[0]):
+                best = (s, e, n)
+        return best[2] if best else "?"
+
+    def src_of(line):
+        for s, e, meta in linemap:
+            if s <= line <= e:
+                return "%s (extracted from %s:%d+%d)" % (meta["item"], meta["file"], meta["src_line"], line - s)
+        return None
+
+    hint_lines = set()
+    inside = False
+    for ln, l in enumerate(text.split("\n"), 1):
+        if "/*@hint-begin*/" in l:
+            inside = True
+        if inside:
+            hint_lines.add(ln)
+        if "/*@hint-end*/" in l:
+            inside = False
+    errors = []
+    for m in re.finditer(r"^error(?:\[[A-Z0-9]+\])?: ([^\n]*)\n\s*--> [^\n:]*:(\d+):(\d+)", stderr, re.M):
+        msg, line = m.group(1), int(m.group(2))
+        if msg.startswith("aborting due to"):
+            continue
+        errors.append({"msg": msg, "gen_line": line, "fn": enclosing(line), "src": src_of(line), "in_hint": line in hint_lines,
+                       "text": text.split("\n")[line - 1].strip()[:200] if line - 1 < len(text.split("\n")) else ""})
+    # canaries
+    canary_names = {n for _, _, n in ranges if n.startswith("canary_")} | set(u.expect_fail)
+    failed_canaries = {e["fn"] for e in errors if e["fn"] in canary_names}
+    canaries_ok = failed_canaries == canary_names
+    real_errors = [e for e in errors if e["fn"] not in canary_names]
+    verified = vr.get("verified", 0)
+    nerr = vr.get("errors", 0)
+    obligations = verified + nerr - len(canary_names & failed_canaries) + len(canary_names)  # canary "fails as required" counts as discharged
+    discharged = verified + len(failed_canaries) if not real_errors else verified + len(failed_canaries)
+    res = {
+        "cmd": "verus <generated %s.rs: extracted from /repo working tree> --output-json --time-expanded" % u.name,
+        "wall_s": wall, "solver_s": round(solver_ms / 1000.0, 2), "obligations": obligations, "discharged": discharged,
+        "functions": [f["function"] for f in funcs if f["success"] and not f["function"].startswith("canary_")],
+        "rewrites": {k: v for k, v in counts.items()}, "extraction": extraction,
+        "canaries": {"expected_to_fail": sorted(canary_names), "failed": sorted(failed_canaries)},
+        "assumed": scan_assumed(text), "imports": u.imports,
+        "samples": [{"engine": "verus", "function": f["function"], "mode": f["mode"], "rlimit": f["rlimit"]} for f in funcs[:3]],
+        "output_tail": stderr[-3000:],
+    }
+    if not canaries_ok:
+        res["status"] = "undecided"
+        res["reason"] = "vacuity guard: canaries that verified although they must fail: %s" % sorted(canary_names - failed_canaries)
+        return res
+    if not real_errors and nerr == len(failed_canaries):
+        res["status"] = "passed"
+        return res
+    if not real_errors:
+        res["status"] = "undecided"
+        res["reason"] = "verus reports %d errors but only %d could be located" % (nerr, len(failed_canaries))
+        return res
+    contract_fail = []
+    hint_fail = []
+    for e in real_errors:
+        desc = "%s in %s%s: `%s`" % (e["msg"], e["fn"], (" [" + e["src"] + "]") if e["src"] else "", e["text"])
+        if e["in_hint"] or e["fn"].startswith("lemma_") or (
+                any(k in e["msg"] for k in HINT_KINDS) and not any(k in e["msg"] for k in ("precondition", "postcondition"))):
+            hint_fail.append(desc)
+        else:
+            contract_fail.append(desc)
+    if contract_fail:
+        res["status"] = "failed"
+        res["failed"] = contract_fail + hint_fail
+    else:
+        res["status"] = "undecided"
+        res["reason"] = "only proof hints / loop-invariant maintenance failed (proof maintenance, not a verdict): " + "; ".join(hint_fail)[:1500]
+        res["hint_failures"] = hint_fail
+    return res
+
+
+def scan_assumed(text):
+    out = []
+    for kw in ("external_body", "assume_specification", "assume(", "admit(", "#[verifier::external", "uninterp"):
+        n = text.count(kw)
+        if n:
+            out.append("%s x%d" % (kw, n))
+    return out
